@@ -57,6 +57,10 @@ CLAIMED = {
   text='Coq theorems (Props/C03.v): for every listed field type, cast(stamped field)(serialise v) = v for typed values and null<->\'\' (hypotheses: Python scalar text codecs satisfy parse(print x)=x and never print empty text); row and table level: a table whose rows carry exactly the schema\'s keys with typed values is returned identically and in order, given the CSV layer\'s round trip of the written cell texts as a premise; the stamps the codecs rely on are regenerated from the source. The CSV layer is an executable model of Python\'s csv reader state machine and QUOTE_MINIMAL writer; on every generated CSV case vm_compute checks that the writer model reproduces the written file byte for byte and the reader model returns the cell texts (the premise, case by case). Direct oracles: real dump_to_path/dump_to_zip followed by real load, and an independent decoder that reads each written file with nothing but the recorded dialect/format/missingValues/field properties.',
   note='Partial: the general CSV round-trip lemma read_csv (write_csv recs) = recs is a premise discharged per generated case by vm_compute, not yet a proved theorem (see DESIGN.md 10); scalar codecs are hypotheses; tabulator (reader used by load) is third party -- its two deviations are known findings (JSON key sorting vs positional cast; universal-newline translation of CR LF inside cells).',
   technique='Coq proof (codecs, table level) + per-case vm_compute of the CSV model + direct oracles incl. independent decoder', ref='5/C03'),
+ 'C20': dict(
+  text='Coq theorems (Props/C20.v) over a model of dump_to_sql + tableschema_sql.Writer (table = list of rows; batched INSERT buffer; Bloom filter; UPDATE .. WHERE keys): rewrite leaves exactly the dumped rows and append the previous rows plus the dumped rows for every batch size; update without the filter equals the fold of upsert; update WITH the filter equals the fold of upsert for every false-positive behaviour of the filter, every batch size and every existing table (invariant: every stored row\'s key is known to the filter; virtual table = flushed ++ buffered); any sequence of dumps is the fold of the per-mode specification; rows continue downstream in input order. Correspondence by vm_compute: after every dump of generated histories (1-5 dumps, modes, explicit/primary keys incl. composite and null keys, batch 1/2/1000, filter on/off, repeated keys, specs carrying update_keys in every mode) the real SQLite table (SELECT *) is compared, as a multiset, with the model and with the specification; updated flags compared; direct oracle = the mode semantics in Python.',
+  note='Partial: SQLite, SQLAlchemy and the third-party Writer are modelled, not verified; Python equality of key tuples is assumed to be an equivalence (hypothesis); null keys match null keys (IS NULL), as observed; array/object columns are a known finding (rows jsonized in place).',
+  technique='Coq proof (buffer/filter invariant) + vm_compute correspondence against real SQLite + direct oracle', ref='5/C20'),
 }
 
 NOT_YET = 'check not built yet (work in progress; will be claimed once its Coq model, theorems and correspondence check exist)'
